@@ -443,6 +443,12 @@ func (u *Update) Apply(item val.Item, values val.Item) UResult {
 			}
 		}
 	}
+	// elements assigned past the end of a list are appended in the order of their element numbers, whatever the
+	// order of the actions (the paths of one request do not overlap, so the order is otherwise immaterial)
+	sort.SliceStable(sets, func(i, j int) bool {
+		li, lj := sets[i].a.Path[len(sets[i].a.Path)-1], sets[j].a.Path[len(sets[j].a.Path)-1]
+		return li.IsIdx && lj.IsIdx && li.Idx < lj.Idx
+	})
 	for _, s := range sets {
 		if !setAt(work, s.a.Path, s.v) {
 			return UResult{Reject: true}
@@ -464,6 +470,11 @@ func (u *Update) Apply(item val.Item, values val.Item) UResult {
 		}
 		if r.idx >= len(parent.L) {
 			continue // beyond the end: no-op
+		}
+		// ... beyond the end of the list AS IT WAS before the request: an element a SET of the same request
+		// appended is not what the index referred to
+		if orig, ok := r.parent.Resolve(pre); ok && orig.K == val.KL && r.idx >= len(orig.L) {
+			continue
 		}
 		nl := append(append([]val.V{}, parent.L[:r.idx]...), parent.L[r.idx+1:]...)
 		if !replaceAt(work, r.parent, val.V{K: val.KL, L: nl}) {
